@@ -314,6 +314,22 @@ def xml_structural(req, proto):
         e.set('bogus', '1')
         yield 'add-attr', '%s#%d' % (name, idx), etree.tostring(root)
         del e.attrib['bogus']
+        # SOAP 1.1 multi-reference attributes: a reference to nothing, and an element that refers to itself
+        e.set('id', 'k1')
+        others = [x for x in root.iter() if isinstance(x.tag, str) and x is not e and x is not root]
+        if others:
+            o_ = others[-1]
+            o_.set('href', '#nosuch')
+            yield 'add-href-dangling', '%s#%d' % (name, idx), etree.tostring(root)
+            o_.set('href', '#k1')
+            yield 'add-href-to-another-element', '%s#%d' % (name, idx), etree.tostring(root)
+            del o_.attrib['href']
+        kids = [c for c in e if isinstance(c.tag, str)]
+        if kids:
+            kids[0].set('href', '#k1')
+            yield 'add-href-cycle', '%s#%d' % (name, idx), etree.tostring(root)
+            del kids[0].attrib['href']
+        del e.attrib['id']
         # an attribute named like a member (element) of the document
         for an in member_names:
             if an in e.attrib:
